@@ -166,13 +166,22 @@ def evaluate(job):
             rec["survives"] = False
             return rec
         rec["survives"] = True
-        fired = {}
         e2 = dict(os.environ, JV_CACHE=os.path.join(tmp, ".jvcache"))
-        for p in PROPS:
-            rc, o = run([PY, "-m", "jv", "check", p, "--repo", tmp, "--no-write"], cwd=VERIF, env=e2, timeout=300)
-            if rc != 0:
-                rules = sorted({ln.split()[0] for ln in o.splitlines() if ln.startswith("  R") or ln.startswith("  E")})
-                fired[p] = {"rc": rc, "rules": rules}
+        rc, o = run([PY, "-m", "jv", "all", "--repo", tmp, "--no-write"], cwd=VERIF, env=e2, timeout=900)
+        fired = {}
+        cur = None
+        rules = {}
+        for ln in o.splitlines():
+            if len(ln) > 4 and ln[0] == "C" and ln[1:3].isdigit() and ln[3:5] == " [":
+                cur = ln[:3]
+            elif (ln.startswith("  R") or ln.startswith("  E")) and cur:
+                rules.setdefault(cur, set()).add(ln.split()[0])
+            elif ln.startswith("VIOLATION property="):
+                p = ln.split("property=")[1].split()[0]
+                fired[p] = {"rc": 1, "rules": sorted(rules.get(p, []))}
+            elif ln.startswith("ANALYSIS-ERROR property="):
+                p = ln.split("property=")[1].split()[0]
+                fired.setdefault(p, {"rc": 2, "rules": []})
         rec["fired"] = fired
         return rec
     except Exception as e:  # keep the sweep going
